@@ -23,9 +23,11 @@ import (
 	"regexp"
 	"runtime"
 	"runtime/debug"
+	"runtime/pprof"
 	"sort"
 	"strings"
 	"sync"
+	"syscall"
 	"time"
 
 	pb "google.golang.org/protobuf/proto"
@@ -57,6 +59,12 @@ type Hist struct {
 	M       int    `json:"m"`       // un-synced appends (crash mode)
 	Sync    string `json:"sync"`    // each (Append = AppendAsync+Sync per entry) | batch (k x AppendAsync, one Sync)
 	Full256 bool   `json:"full256"` // corrupt mode: all 256 values for header and index bytes
+	// v1 only: a length field >= 0xFFFFFFFC makes the v1 code allocate (and zero) a 4 GiB buffer or loop
+	// forever (2.4 s / >1 GiB per evaluation). HeavyFull=false: lengths {0xFFFFFFFC, 0xFFFFFFFF} with the nil
+	// provider only; true: all four lengths with providers {nil, -1} (v1 recovery ignores the commit offset).
+	HeavyFull bool `json:"heavyFull,omitempty"`
+	Part      int  `json:"part,omitempty"` // corrupt mode: evaluate images with index % Parts == Part
+	Parts     int  `json:"parts,omitempty"`
 }
 
 func (h Hist) ID() string {
@@ -65,6 +73,9 @@ func (h Hist) ID() string {
 		s += fmt.Sprintf("m%d/%s", h.M, h.Sync)
 	} else if h.Full256 {
 		s += "/full256"
+	}
+	if h.Parts > 1 {
+		s += fmt.Sprintf("/part%d", h.Part)
 	}
 	return s
 }
@@ -358,7 +369,9 @@ type image struct {
 	// crash: which never-synced artefacts of a rollover are incomplete in this image
 	closedTailMissing bool // a closed (rolled-over) segment lacks bytes it had when it was closed, or its file is absent
 	idxBad            bool // the index file of a closed segment is absent or short
-	idxShort          bool // ... short (a prefix) rather than absent
+	idxShort          bool // ... short (a prefix)
+	idxAbsent         bool // ... absent
+	heavy             bool // v1 length field >= 0xFFFFFFFC (4 GiB allocation / endless loop): see Hist.HeavyFull
 }
 
 func cloneFiles(m map[string][]byte) map[string][]byte {
@@ -647,7 +660,7 @@ func (b *base) judge(im *image, nilProv bool, commit int64, o *obs) (key, msg, o
 	key, msg, outcome = b.judge0(im, nilProv, commit, o)
 	// v1 records and index files carry no checksum: every way in which damaged v1 bytes are taken at face
 	// value in the *current* segment is one root cause per damaged structure (format limitation)
-	if b.h.Codec == "v1" && im.kind == "corrupt" && key != "" && !strings.HasPrefix(key, "panic:") && !im.zeroed &&
+	if b.h.Codec == "v1" && im.kind == "corrupt" && key != "" && !strings.HasPrefix(key, "panic:") && !strings.HasPrefix(key, "hang:") &&
 		!strings.HasPrefix(key, "uncommitted-damage-not-discarded:closed-segment") {
 		switch {
 		case isIdxRegion(im.region):
@@ -659,6 +672,9 @@ func (b *base) judge(im *image, nilProv bool, commit int64, o *obs) (key, msg, o
 		default:
 			key = "v1-header-damage-undetected"
 		}
+	}
+	if b.h.Codec == "v1" && im.kind == "crash" && strings.HasPrefix(key, "crash:index-file-not-durable:") && im.idxShort {
+		key = "v1-short-index-accepted" // a torn v1 index file (no checksum, no length) is taken at face value
 	}
 	return key, msg, outcome
 }
@@ -704,9 +720,6 @@ func (b *base) judge0(im *image, nilProv bool, commit int64, o *obs) (key, msg, 
 			cause = "closed-segment-not-durable"
 		case im.idxBad:
 			cause = "index-file-not-durable"
-			if cdc == "v1" && im.idxShort {
-				cause = "v1-short-index-accepted"
-			}
 		}
 		if o.openErr != nil {
 			if nilProv {
@@ -754,9 +767,26 @@ func (b *base) judge0(im *image, nilProv bool, commit int64, o *obs) (key, msg, 
 		return "", "", fmt.Sprintf("recovered-%d-of-%d-unsynced", o.last-b.lastSynced, b.h.M)
 	}
 	// corruption of a cleanly written image: all n entries are on disk
+	if o.openErr == nil && o.last > n-1 {
+		return "phantom-entries:" + cdc + ":" + im.region, o.summary(), "phantom"
+	}
+	if nilProv {
+		// no commit offset is known to the WAL (offline tools): "committed" is undefined, so only the
+		// unconditional clauses (no panic, no damaged/fabricated entry returned) apply
+		switch {
+		case o.openErr != nil:
+			return "", "", "nilprov-open-error"
+		case anyErr:
+			return "", "", "nilprov-read-error"
+		case o.last == n-1:
+			return "", "", "nilprov-intact"
+		default:
+			return "", "", "nilprov-silently-truncated"
+		}
+	}
 	c := commit
-	if nilProv || c > n-1 {
-		c = n - 1 // nil provider: the WAL treats everything as committed
+	if c > n-1 {
+		c = n - 1
 	}
 	where := "current-segment"
 	if im.closed {
@@ -766,10 +796,6 @@ func (b *base) judge0(im *image, nilProv bool, commit int64, o *obs) (key, msg, 
 	e := im.entry
 	if isIdx {
 		e = n + 1 // index damage does not damage any entry
-	}
-	if nilProv && e >= n {
-		// free-space / index damage with no commit knowledge: an error is within the contract
-		e = -2
 	}
 	det := where + ":" + cdc + ":" + im.region
 	if im.closed {
@@ -791,9 +817,6 @@ func (b *base) judge0(im *image, nilProv bool, commit int64, o *obs) (key, msg, 
 		default:
 			return "uncommitted-damage-not-discarded:" + phaseIf(!im.closed, "open-error:") + det, fmt.Sprintf("damaged entry %d > commit offset %d; %s", im.entry, commit, o.summary()), "open-error"
 		}
-	}
-	if o.last > n-1 {
-		return "phantom-entries:" + det, o.summary(), "phantom"
 	}
 	if n > 0 && (o.last < c || (c >= 0 && o.first != 0)) {
 		return "committed-entries-silently-dropped:" + dropDet, fmt.Sprintf("commit offset %d (nil provider=%v), damaged entry %d, recovered first=%d last=%d without any error; %s", commit, nilProv, im.entry, o.first, o.last, o.summary()), "dropped"
@@ -824,12 +847,6 @@ func (b *base) judge0(im *image, nilProv bool, commit int64, o *obs) (key, msg, 
 			return "", "", "committed-damage-read-error"
 		}
 		return "", "", "committed-damage-harmless"
-	}
-	if e == -2 {
-		if anyErr {
-			return "", "", "nilprov-read-error"
-		}
-		return "", "", "nilprov-intact"
 	}
 	return "committed-entries-silently-dropped:" + dropDet, o.summary(), "dropped"
 }
@@ -885,6 +902,7 @@ type engine struct {
 	stop     bool
 	nviol    map[string]int
 	evalIdx  int64
+	imgIdx   int64
 	timer    *time.Timer
 }
 
@@ -907,6 +925,12 @@ func (en *engine) emit(im *image) {
 	if en.job.Only != "" && en.job.Only != im.desc {
 		return
 	}
+	if en.job.Hist.Parts > 1 {
+		en.imgIdx++
+		if int(en.imgIdx)%en.job.Hist.Parts != en.job.Hist.Part {
+			return
+		}
+	}
 	hsh := imageHash(im.files)
 	if en.seen[hsh] {
 		if en.evalIdx >= en.job.StartAt {
@@ -926,10 +950,18 @@ func (en *engine) emit(im *image) {
 		if en.job.OnlyProv != "" && en.job.OnlyProv != p.String() {
 			continue
 		}
+		if im.heavy && !(p.nilp || (en.job.Hist.HeavyFull && p.c == -1)) {
+			continue
+		}
 		idx := en.evalIdx
 		en.evalIdx++
 		if idx < en.job.StartAt {
 			continue // evaluated by an earlier child of the same job
+		}
+		var release func()
+		if im.heavy {
+			release = acquireHeavySlot()
+			en.res.Counters["heavy_evaluations"]++
 		}
 		o, stuck := en.observeGuarded(im, p)
 		if stuck != "" {
@@ -948,7 +980,10 @@ func (en *engine) emit(im *image) {
 			_ = os.RemoveAll(scratch)
 			os.Exit(0)
 		}
-		if o.pan != nil {
+		if release != nil {
+			debug.FreeOSMemory()
+			release()
+		} else if o.pan != nil && strings.HasSuffix(o.pan.fn, "ReadRecordWithValidation") {
 			// a length field >= 0xFFFFFFFC makes the v1 reader allocate a 4 GiB payload buffer before it
 			// panics; hand the (untouched) span back so that the next one is not zeroed page by page
 			debug.FreeOSMemory()
@@ -974,6 +1009,24 @@ func (en *engine) emit(im *image) {
 	if en.res.Images%64 == 0 && !en.deadline.IsZero() && time.Now().After(en.deadline) {
 		en.stop = true
 		en.res.Exhaustive = false
+	}
+}
+
+// acquireHeavySlot bounds the number of multi-GiB evaluations running at the same time on the machine
+// (all children of all concurrently running C10 checks share the lock files).
+func acquireHeavySlot() (release func()) {
+	for {
+		for i := 0; i < 4; i++ {
+			f, err := os.OpenFile(fmt.Sprintf("/dev/shm/verif-c10-heavy-%d.lock", i), os.O_CREATE|os.O_RDWR, 0o666)
+			if err != nil {
+				infra("heavy slot: %v", err)
+			}
+			if syscall.Flock(int(f.Fd()), syscall.LOCK_EX|syscall.LOCK_NB) == nil {
+				return func() { _ = syscall.Flock(int(f.Fd()), syscall.LOCK_UN); _ = f.Close() }
+			}
+			_ = f.Close()
+		}
+		time.Sleep(20 * time.Millisecond)
 	}
 }
 
@@ -1019,7 +1072,7 @@ func (en *engine) observeGuarded(im *image, p provSpec) (*obs, string) {
 		if ms.HeapAlloc > hangHeapLimit {
 			// (a single 4 GiB payload buffer requested by ReadRecordWithValidation for a length field
 			// >= 0xFFFFFFFC is slow to zero but ends in a panic: keep waiting for that one)
-			if f := stuckFunction(); !strings.HasSuffix(f, "ReadRecordWithValidation") {
+			if f := stuckFunction(); f != "?" && !strings.HasSuffix(f, "ReadRecordWithValidation") {
 				return nil, f
 			}
 		}
@@ -1179,6 +1232,8 @@ func (en *engine) crashImages() {
 						im.idxBad = true
 						if combo[i].cut >= 0 {
 							im.idxShort = true
+						} else {
+							im.idxAbsent = true
 						}
 					}
 				}
@@ -1379,10 +1434,14 @@ func (en *engine) corruptImages() {
 			}
 			// the length field as a whole
 			for _, l := range lengthSet(r.pos, r.plen) {
+				heavy := b.h.Codec == "v1" && l >= 0xFFFFFFFC
+				if heavy && !b.h.HeavyFull && l != 0xFFFFFFFC && l != 0xFFFFFFFF {
+					continue
+				}
 				var lb [4]byte
 				binary.BigEndian.PutUint32(lb[:], l)
 				en.emit(&image{desc: fmt.Sprintf("corrupt:%s@%d(entry %d length)=0x%08x", s.txn, r.pos, r.off, l), files: mutate(s.txn, r.pos, lb[:]), kind: "corrupt",
-					region: "length", entry: r.off, closed: isClosed, zeroed: l == 0})
+					region: "length", entry: r.off, closed: isClosed, zeroed: l == 0, heavy: heavy})
 			}
 			// payload bytes
 			for i := 0; i < r.plen; i++ {
@@ -1410,10 +1469,14 @@ func (en *engine) corruptImages() {
 					if l == 0 {
 						continue
 					}
+					heavy := b.h.Codec == "v1" && l >= 0xFFFFFFFC
+					if heavy && !b.h.HeavyFull && l != 0xFFFFFFFC {
+						continue
+					}
 					var lb [4]byte
 					binary.BigEndian.PutUint32(lb[:], l)
 					en.emit(&image{desc: fmt.Sprintf("corrupt:%s@%d(free length)=0x%08x", s.txn, end, l), files: mutate(s.txn, end, lb[:]), kind: "corrupt",
-						region: "free", entry: int64(b.n), closed: false})
+						region: "free", entry: int64(b.n), closed: false, heavy: heavy})
 				}
 			}
 		}
@@ -1525,10 +1588,16 @@ func plan(tier string) []Hist {
 	for _, cd := range []string{"v2", "v1"} {
 		for _, x := range ncs {
 			full := tier == "thorough" || x.n <= 2
-			hs = append(hs, Hist{Mode: "corrupt", Codec: cd, Profile: "small", Cap: x.cap, K: x.n, Sync: "each", Full256: full})
+			parts := 1
+			if full && cd == "v2" {
+				parts = 1 + x.n/2
+			}
+			for pt := 0; pt < parts; pt++ {
+				hs = append(hs, Hist{Mode: "corrupt", Codec: cd, Profile: "small", Cap: x.cap, K: x.n, Sync: "each", Full256: full, HeavyFull: tier == "thorough", Part: pt, Parts: parts})
+			}
 		}
 		// large records: page-straddling payloads, reduced positions
-		hs = append(hs, Hist{Mode: "corrupt", Codec: cd, Profile: "large", Cap: 2, K: 3, Sync: "each"})
+		hs = append(hs, Hist{Mode: "corrupt", Codec: cd, Profile: "large", Cap: 2, K: 3, Sync: "each", HeavyFull: tier == "thorough"})
 	}
 	return hs
 }
@@ -1550,6 +1619,11 @@ func main() {
 		}
 		scratch = ev.Scratch("c10")
 		t0 := time.Now()
+		if pf := os.Getenv("VERIF_C10_PROFILE"); pf != "" {
+			f, _ := os.Create(pf)
+			_ = pprof.StartCPUProfile(f)
+			defer pprof.StopCPUProfile()
+		}
 		res := runJob(job)
 		res.WallMs = time.Since(t0).Milliseconds()
 		_ = os.RemoveAll(scratch)
@@ -1593,7 +1667,10 @@ func main() {
 		if h.Mode == "corrupt" {
 			w := 200 * h.K * (h.K + 2)
 			if h.Full256 {
-				w *= 30
+				w *= 30 / max(h.Parts, 1)
+			}
+			if h.Codec == "v1" {
+				w += 1000000 * h.K // long serial chain of multi-second evaluations: start first
 			}
 			return w
 		}
@@ -1737,6 +1814,7 @@ func spawnAll(exe string, job Job) *JobResult {
 func spawn(exe string, job Job) *JobResult {
 	js, _ := json.Marshal(job)
 	cmd := exec.Command(exe, "-job", string(js))
+	cmd.Env = append(os.Environ(), "GOMAXPROCS=2")
 	var stderr bytes.Buffer
 	cmd.Stderr = &stderr
 	out, err := cmd.Output()
